@@ -151,6 +151,12 @@ where
             node: self.node.clone(),
         }
     }
+
+    /// Verification hook: the number of frames currently held in the shared backlog.
+    #[cfg(rustaudio_dasp_verif)]
+    pub fn verif_backlog_len(&self) -> usize {
+        self.node.borrow().buffer.len()
+    }
 }
 
 impl<S> SharedNode<S>
